@@ -197,6 +197,48 @@ def coq_case(case, coq_cap, model_cap, dist, call_cap):
         common.cbool(check_cache), omen_gen.centries(case["entries"] if check_cache else []))
 
 
+def long_session(ctx, sc, C, dist):
+    """What a long guessing session does: ONE Optimizer serves level after level of a model with thousands of starting
+    n-grams, so that the lookup cache grows to several hundred thousand entries (whatever the cache does about its size,
+    every level must still be enumerated exactly).  Oracle: the independent brute-force enumerator."""
+    rng = ctx.rng
+    alphabet = list("abcdefghijklmnopqrstuvwxyzABCDEFGHIJKLMNOPQRSTUVWXYZ0123456789")
+    nsym = ctx.scale(56, 62)
+    alphabet = alphabet[:nsym]
+    ip, cp = [], []
+    for a in alphabet:
+        for b in alphabet:
+            ip.append((rng.randint(0, 3), a + b))
+            for c in rng.sample(alphabet, 2):
+                cp.append((rng.randint(0, 3), a + b + c))
+    om = {"ngram": 3, "alphabet": alphabet, "ip": ip, "ep": [(0, s) for _, s in ip], "cp": cp, "ln": [3, 3, 0, 1, 1, 2],
+          "modes": {"ip": "long", "cp": "long", "ln": "long", "density": 2.0 / nsym, "ip_density": 1.0, "kmax": 4, "dead": 0}}
+    grammar = omen_gen.load_model(om, sc)
+    buckets = omen_gen.brute_levels(om)
+    opt = omen_gen.new_optimizer(C["omen_optimizer_max_length"])
+    vio = []
+    top = max(buckets) if buckets else 0
+    for T in range(0, top + 2):
+        want = buckets.get(T, Counter())
+        out, st = omen_gen.run_level(grammar, T, opt, cap=sum(want.values()) + 50, budget_s=60.0)
+        dist["long_session_levels"] += 1
+        dist["long_session_strings"] += len(out)
+        got = Counter(out)
+        if st != "done" or got != want:
+            miss, extra = want - got, got - want
+            vio.append({"sig": "C10:level-set:" + ("missing" if miss else "extra") if st == "done" else "C10:no-exhaustion",
+                        "what": "long session on one Optimizer (%d starting n-grams), level %d: status %s, emitted %d strings, %d have that "
+                                "level; missing e.g. %r, extra/repeated e.g. %r" % (len(ip), T, st, len(out), sum(want.values()),
+                                                                                     list(miss)[:2], list(extra)[:2]),
+                        "replay": {"om": om, "T": T, "history": list(range(0, T))}})
+            break
+    try:
+        dist["long_session_optimizer_entries"] = len(omen_gen.optimizer_entries(opt))
+    except Exception:
+        pass
+    return vio
+
+
 HEADER = ["From Coq Require Import List NArith ZArith.", "From Pcfg Require Import OmenSpec Omen OmenCorr.",
           "From PcfgGen Require Import Consts_gen.", "Import ListNotations.", "Open Scope nat_scope."]
 
@@ -240,6 +282,7 @@ def run(ctx):
             T, o, _, _ = max(case["levels"], key=lambda x: len(x[1]))
             samples.append({"ngram": om["ngram"], "alphabet": om["alphabet"], "modes": om["modes"], "level": T,
                             "emitted": len(o), "first": o[:4]})
+    vio += long_session(ctx, sc, C, dist)
     # ---- correspondence
     # balanced shards: largest case first onto the least loaded shard
     nsh = min(len(cases), common.NCPU) or 1
@@ -275,7 +318,8 @@ def run(ctx):
             "up to 3 higher non-empty ones and an empty one: MarkovCracker.next_guess() until None with a new Optimizer, then "
             "all levels again in random order (one twice, two partial runs first) on ONE Optimizer; oracle: multiset equality with "
             "an independent brute-force enumerator, no duplicates, exhaustion, shared = new; Coq evaluates the model on the same "
-            "files (lists compared exactly, Optimizer content compared when small). non-trivial = the level needs a backtrack "
+            "files (lists compared exactly, Optimizer content compared when small); one LONG session: a 3-gram model with thousands "
+            "of starting n-grams, every level on one Optimizer (cache of >100k entries), against the brute-force enumerator. non-trivial = the level needs a backtrack "
             "across depth or hits a memo entry stored by an earlier level; distinct by (tables, level)")
     return {"evaluations": evaluations, "distinct_nontrivial": nontrivial, "rule": rule, "samples": samples,
             "corr": corr, "violations": vio, "dist": dict(dist)}
